@@ -34,14 +34,42 @@ Theorem c14_dest_cancel : forall s cond a b,
 Proof. exact dest_cancel. Qed.
 Print Assumptions c14_dest_cancel.
 
+(* handler ABANDON: the transaction is reset, the abandon callback runs once, and the running
+   state machine call is unwound with the internal code E_ABANDONED (dest.py _TransactionAbandoned) *)
 Theorem c14_dest_abandon : forall s cond a b,
   p_tid (d_p s) = Some (a, b) -> get_fault_handler (l_faults (d_cfg s)) cond = Some FH_ABANDON ->
-  exists s', declare_fault cond s = (s', Ok FH_ABANDON) /\
+  exists s', declare_fault cond s = (s', Err E_ABANDONED) /\
     log_d s' = EvFault FH_ABANDON a b cond (p_progress (d_p s)) :: log_d s /\
     d_state s' = ST_IDLE /\ d_step s' = DS_IDLE /\ d_p s' = fresh_params /\ d_queue s' = d_queue s /\
     e_fs (d_env s') = e_fs (d_env s).
 Proof. exact dest_abandon. Qed.
 Print Assumptions c14_dest_abandon.
+
+(* the exact state after an abandoning declaration: parameters, state and step reset, the callback
+   logged, every other component as before *)
+Theorem c14_dest_abandon_unwinds : forall s cond a b,
+  p_tid (d_p s) = Some (a, b) -> get_fault_handler (l_faults (d_cfg s)) cond = Some FH_ABANDON ->
+  declare_fault cond s =
+    (mkDst (d_cfg s) ST_IDLE DS_IDLE (d_states_tid s) (d_ready s) (d_queue s) fresh_params
+           (mkEnv (e_now (d_env s)) (e_fs (d_env s)) (e_reject_writes (d_env s))
+                  (EvFault FH_ABANDON a b cond (p_progress (d_p s)) :: log_d s)),
+     Err E_ABANDONED).
+Proof. exact dest_abandon_unwinds. Qed.
+Print Assumptions c14_dest_abandon_unwinds.
+
+(* catch_abandoned turns exactly the code E_ABANDONED into a normal return (state kept) and is
+   transparent for every other outcome *)
+Theorem c14_dest_abandoned_is_caught : forall (m : D unit) s,
+  (forall s', m s = (s', Err E_ABANDONED) -> catch_abandoned m s = (s', Ok tt)) /\
+  (forall s' u, m s = (s', Ok u) -> catch_abandoned m s = m s) /\
+  (forall s' e, m s = (s', Err e) -> e <> E_ABANDONED -> catch_abandoned m s = m s).
+Proof. exact dest_abandoned_is_caught. Qed.
+Print Assumptions c14_dest_abandoned_is_caught.
+
+(* the internal control code is never visible to the caller of state_machine *)
+Theorem c14_dest_abandon_never_escapes : forall pkt s, snd (Dest.state_machine pkt s) <> Err E_ABANDONED.
+Proof. exact dest_abandon_never_escapes. Qed.
+Print Assumptions c14_dest_abandon_never_escapes.
 
 (* no callback without a transaction id; conditions outside the table raise *)
 Theorem c14_dest_no_tid : forall s cond, p_tid (d_p s) = None -> declare_fault cond s = (s, Err E_ASSERT).
